@@ -284,6 +284,24 @@ theorem rloopWith_err (run : St → Res) (runElse : Option (St → Res))
       | some re => exact helse re rfl s
     · exact afterLoop_err runElse helse _ _
 
+
+theorem rloopQB_ext (run run' : St → Res) (h : ∀ st, Ext (run st) (run' st)) (runElse runElse' : Option (St → Res))
+    (helse : ExtElse runElse runElse')
+    (ls : RLoopSpec) (s : St) :
+    ExtC (rloopQB run runElse ls s) (rloopQB run' runElse' ls s) := by
+  unfold rloopQB
+  cases cmpPath s.c.vars s.c.chQB ls.src with
+  | none => intro _; rfl
+  | some p => exact rloopWith_ext run run' h runElse runElse' helse { ls with src := p } s
+
+theorem rloopQB_err (run : St → Res) (runElse : Option (St → Res))
+    (helse : ∀ re, runElse = some re → ∀ s, (re s).err = none) (ls : RLoopSpec) (s : St) :
+    (rloopQB run runElse ls s).err = none := by
+  unfold rloopQB
+  cases cmpPath s.c.vars s.c.chQB ls.src with
+  | none => rfl
+  | some p => exact rloopWith_err run runElse helse { ls with src := p } s
+
 /-- The loop node turns `ctx.Err` into the returned error: a loop that ran out of fuel returns `outOfFuel`. -/
 theorem loopNode_ext (loop loop' : St → Res) (hnone : ∀ s, (loop s).err = none) (h : ∀ s, ExtC (loop s) (loop' s)) (s : St) :
     Ext (loopNode loop s) (loopNode loop' s) := by
@@ -409,9 +427,9 @@ theorem interp_fuel (reg : Registry) : ∀ f : Nat,
         rw [writeNode, writeNode]
         simp only
         apply loopNode_ext
-        · intro s'; exact rloopWith_err _ _ (hElseErr f _) _ _
+        · intro s'; exact rloopQB_err _ _ (hElseErr f _) _ _
         · intro s'
-          exact rloopWith_ext _ _ (fun st => ihS _ st) _ _ (hElse _) ls s'
+          exact rloopQB_ext _ _ (fun st => ihS _ st) _ _ (hElse _) ls s'
       | brk d => intro _; rw [writeNode, writeNode]
       | lbrk d => intro _; rw [writeNode, writeNode]
       | cont => intro _; rw [writeNode, writeNode]
